@@ -47,6 +47,7 @@ func init() {
 			{ID: "R02.6", Title: "sibling agreement: optimizer and generated code consult the same handlers to find the callee of a call", Floor: 2, Run: ruleR026},
 			{ID: "R01.7", Title: "lazily compiled boolean operators yield a Bool or an error, like the eager implementations the folder executes (see C01)", Floor: 2, Run: ruleR017},
 			{ID: "R02.5", Title: "panic containment: optimizer code runs only inside parser2.Optimize, which recovers and restores the AST", Floor: 10, Run: ruleR025},
+			{ID: "R02.7", Title: "subtree promotion: a node is replaced by one of its children only under the condition under which the generated code returns that child's value (roles read from the generator)", Floor: 2, Run: ruleR027},
 		},
 	})
 	register(&Property{
@@ -187,7 +188,8 @@ func init() {
 			{ID: "R10.1b", Title: "stage producers modify only state created inside the producer (per iteration)", Floor: 23, Run: ruleR101stages},
 			{ID: "R10.1c", Title: "evaluation code stores nothing into package level variables, generator fields or shared language values", Floor: 1, Run: ruleR101effects},
 			{ID: "R10.2", Title: "every Eval creates its own stack; no generator-owned stack is used by evaluation code", Floor: 2, Run: ruleR102},
-			{ID: "R06.2", Title: "the List cache is accessed under its mutex only", Floor: 13, Run: ruleR062},
+			{ID: "R06.2", Title: "the List cache is accessed under its mutex only", Floor: 8, Run: ruleR062},
+			{ID: "R09.1", Title: "list backing slices are never written in place; an append into spare capacity happens inside the critical section that trims the parent (see C09)", Floor: 36, Run: ruleR091},
 			{ID: "R06.1", Title: "value stacks are goroutine confined at MapAuto/FilterAuto/Merge", Floor: 3, Run: ruleR061},
 			{ID: "R06.3", Title: "iterator pipelines with callbacks are constructed per iteration", Floor: 15, Run: ruleR063},
 		},
@@ -308,6 +310,7 @@ func init() {
 			{ID: "R02.1", Title: "purity-guarded folding (see C02)", Floor: 6, Run: ruleR021},
 			{ID: "R02.2", Title: "regroup guard (see C02)", Floor: 2, Run: ruleR022},
 			{ID: "R02.3", Title: "purity propagation (see C02)", Floor: 15, Run: ruleR023},
+			{ID: "R02.7", Title: "subtree promotion only under the generated code's own condition (see C02)", Floor: 2, Run: ruleR027},
 			{ID: "R03.1", Title: "one recursion level per operator (see C03)", Floor: 3, Run: ruleR031},
 			{ID: "R03.2", Title: "left associative accumulation loop (see C03)", Floor: 7, Run: ruleR032},
 			{ID: "R03.3", Title: "prefix operators (see C03)", Floor: 3, Run: ruleR033},
